@@ -15,7 +15,7 @@ import (
 //	word may carry +skip (the client's InsecureSkipVerify) and +cbok / +cbdeny (the client's callback))
 //	hs <xx|ik|ik2|ik3> <policy> <serverAdv> <clientAdv> <listed 0|1|2=listed then revoked> <name|noname>
 //	     (ik2, ik3: hidden mode with 1 or 2 certificates of other virtual hosts ahead of the addressed one)
-//	     -> c=<client ok> h=<handle offered> d=<data flows both ways>
+//	     -> c=<client ok> h=<handle offered> d=<data flows both ways> a=<the server still serves an honest client afterwards>
 func main() {
 	Main(map[string]*Suite{"C01": {Gen: gen, Run: run},
 		// the callback scenarios alone: what C06's `Verifying` hypothesis rests on (the principal's
@@ -128,8 +128,8 @@ func run(in *bufio.Scanner, out *bufio.Writer) {
 			sc := hs.Scenario{Hidden: f[1] != "xx", Decoys: decoys, ServerCB: cbOf(pol), ClientSkip: opt(nm, "skip"), ClientCB: cbOf(nm), Policy: f[2], ServerAdv: f[3], ClientAdv: f[4], KeyListed: f[5] == "1", Revoked: f[5] == "2",
 				NoName: f[6] == "noname"}
 			res = Guard(func() string {
-				r := hs.Run(sc, nil)
-				return fmt.Sprintf("c=%d h=%d d=%d", b(r.ClientOK), b(r.Handle), b(r.C2S && r.S2C))
+				r, alive := hs.RunProbe(sc)
+				return fmt.Sprintf("c=%d h=%d d=%d a=%s", b(r.ClientOK), b(r.Handle), b(r.C2S && r.S2C), alive)
 			})
 		}
 		out.WriteString(res)
